@@ -306,6 +306,15 @@ def cmd_check(prop, tier):
     bins = build_variants(variants)
     t_built = time.time()
     rundir = make_rundir(prop)
+    det = None
+    if tier == 'thorough' or os.environ.get('VERIF_DETERMINISM'):
+        # determinism proof for this property before the search: a sample of jobs is executed twice, in
+        # pools of 3 and 11 processes; every result (event-log hash, trace, outputs, probes) must agree
+        rc = cmd_determinism(24, [prop])
+        det = {'jobs': 24, 'executions_each': 2, 'pool_sizes': [3, 11], 'mismatches': 0 if rc == 0 else 'yes'}
+        if rc != 0:
+            print('HARNESS-NONDETERMINISM: determinism sample failed')
+            return 2
     budget_s, max_jobs = BUDGET[tier][prop]
     if os.environ.get('VERIF_BUDGET_S'):
         budget_s = float(os.environ['VERIF_BUDGET_S'])
@@ -338,6 +347,7 @@ def cmd_check(prop, tier):
                 continue
             agg['jobs'] += 1
             agg['runs'] += rep['nruns']
+            agg['evals'] = agg.get('evals', 0) + (rep.get('extra') or {}).get('evaluations', rep['nruns'])
             agg['keys'].update(rep['keys'])
             for k, v in rep['probes'].items():
                 if k.endswith('_max'):
@@ -460,7 +470,8 @@ def cmd_check(prop, tier):
     ev = {
         'property_id': prop, 'tier': tier, 'seed': seed, 'level': LEVEL[prop],
         'coverage': {
-            'evaluations': agg['runs'],
+            'evaluations': agg.get('evals', agg['runs']),
+            'simulated_runs': agg['runs'],
             'distinct_nontrivial': len(agg['keys']),
             'rule': getattr(mod, 'RULE', {}).get(prop, '') if isinstance(getattr(mod, 'RULE', None), dict) else getattr(mod, 'RULE', ''),
             'samples': agg['samples'][:4] or [{'note': 'no job finished'}],
@@ -478,6 +489,7 @@ def cmd_check(prop, tier):
             'simulated_time': 'kalign has no timers; reported instead: scheduler_steps, instrumented_accesses, and the simulated wall clock only moves when read',
             'cross_observations_not_gating_here': cross,
             'known_findings_matched': known_hits,
+            'determinism_sample': det or 'run by setup_cmd (check.py determinism) and by every thorough run',
         },
         'assumptions': getattr(mod, 'ASSUMPTIONS', []),
         'wall_s': round(wall, 2),
